@@ -17,8 +17,11 @@ open Proto Shutdown
 
 inductive Op where
   | conn | unary (c s : Nat) | stream (c n s : Nat) | adv (k : Nat) | sig | endInc | accErr
-  | dropConn (c : Nat) | cancel (k : Nat) | age
+  | dropConn (c : Nat) | cancel (k : Nat) | wait (secs : Nat)
 deriving Repr
+
+/-- `max_connection_age` the harness configures in `a1` scripts, in seconds -/
+def ageLimit : Nat := 3600
 
 structure Step where
   op : Op
@@ -34,7 +37,8 @@ def parseOp (body : List Char) : Option Op :=
   | ['C'] => some .conn
   | ['G'] => some .sig
   | ['E'] => some .endInc
-  | ['T'] => some .age
+  | ['T'] => some (.wait ageLimit)
+  | 'W' :: rest => (natOf rest).map .wait
   | ['I', 'r'] => some .accErr
   | ['I', 'o'] => some .accErr
   | 'U' :: rest =>
@@ -157,6 +161,8 @@ structure Sim where
   callMap : List (Nat × Nat)     -- call id → (connection, index within the connection)
   accW : List Bool               -- oracle: was connection c accepted
   startW : List Bool             -- oracle: was call k started
+  now : Nat := 0                 -- virtual clock, whole seconds
+  accAt : List (Option Nat) := []  -- virtual time at which connection c was accepted
 
 def Sim.apply (m : Sim) (l : Label) : Sim :=
   match step m.st l with
@@ -227,6 +233,7 @@ def Sim.callDone (m : Sim) (cj : Nat × Nat) : Bool :=
 def Sim.record (m : Sim) : Sim :=
   { m with
     closedAt := stamp m.t m.closedAt (m.st.conns.map fun cn => cn.closed)
+    accAt := stamp m.now m.accAt (m.st.conns.map fun cn => cn.accepted)
     doneAt := stamp m.t m.doneAt (m.callMap.map m.callDone)
     resolvedAt := match m.resolvedAt with
       | some r => some r
@@ -257,7 +264,14 @@ def Sim.doOp (m : Sim) : Op → Sim
   | .cancel k => match m.callMap[k]? with
     | some (c, j) => m.apply (.cancel c j)
     | none => m
-  | .age => m.apply .ageTick
+  | .wait d =>
+    -- virtual time passes: the age timer of every connection accepted at least `ageLimit`
+    -- seconds ago has elapsed (no-op unless `max_connection_age` is configured)
+    let m := { m with now := m.now + d }
+    (connIdx m.st).foldl (fun m c =>
+      match m.accAt.getD c none with
+      | some t => if m.now - t ≥ ageLimit then m.apply (.ageTick c) else m
+      | none => m) m
 
 def Sim.doStep (m : Sim) (st : Step) : Sim :=
   let m := m.doOp st.op
@@ -351,10 +365,11 @@ def analyse (sc : Script) : List ConnInfo × List CallInfo :=
     let droppedEver := sc.steps.any fun s => match s.op with
       | .dropConn c' => c' == c | .cancel k' => k' == k | _ => false
     -- anything before the call became quiescent that could have turned the connection away
-    let disturbed := (sg.zipIdx).any fun ((s, g'), i') =>
+    let waited := (sg.filterMap fun (s, g') =>
+      match s.op with | .wait d => if g' ≤ g then some d else none | _ => none).foldl (· + ·) 0
+    let disturbed := (sc.age && waited ≥ ageLimit) || (sg.zipIdx).any fun ((s, g'), i') =>
       g' ≤ g && (match s.op with
         | .sig | .endInc => true
-        | .age => sc.age
         | .dropConn c' => c' == c && i' < i
         | _ => false)
     let connOk := match conns[c]? with | some ci => ci.mustAccept | none => false
